@@ -39,5 +39,12 @@ pub fn cfg_inputs(thorough: bool) -> Vec<Vec<u8>> {
 
 /// The trees used by the skip check in the builds without `alloc` (C06).
 pub fn skip_trees(thorough: bool) -> Vec<Item> {
-    trees_up_to(if thorough { 6 } else { 5 }, &Alphabet::structural())
+    let mut v = trees_up_to(if thorough { 6 } else { 5 }, &Alphabet::structural());
+    v.extend(skip_leaf_form_trees());
+    v
+}
+
+/// Small trees over every leaf head form (each form is its own arm in `skip`).
+pub fn skip_leaf_form_trees() -> Vec<Item> {
+    trees_up_to(3, &Alphabet::leaf_forms())
 }
